@@ -887,6 +887,15 @@ class Engine:
             ec.st.heap.alloc = r_ + 1
             ec.st.assume(typ(r_) == typ(V.rv(a.t)))
             return tV(V.ref(r_))
+        if isinstance(op, (ast.Add, ast.Sub, ast.Mult)) and ((a.k == "V" and b.k in num) or (b.k == "V" and a.k in num)):
+            # one operand is a number: the other must be one too (no solver probe needed)
+            va, vb = toV(a), toV(b)
+            other = va if a.k == "V" else vb
+            ec.may_raise(z3.Not(smt.is_num(other)), "TypeError", line, "arithmetic on a number and a non-number")
+            f = {ast.Add: (lambda x, y: x + y), ast.Sub: (lambda x, y: x - y), ast.Mult: (lambda x, y: x * y)}[type(op)]
+            if a.k == "r" or b.k == "r":
+                return T("r", f(smt.num_real(va), smt.num_real(vb)))
+            return tV(z3.If(is_r(other), V.r(f(smt.num_real(va), smt.num_real(vb))), V.i(f(smt.num_int(va), smt.num_int(vb)))))
         if isinstance(op, ast.Add):
             va, vb = toV(a), toV(b)
             # str + str, list + list, number + number
@@ -1102,6 +1111,15 @@ class Engine:
         dct = z3.And(is_ref(v), sub(typ(r), cid("dict")))
         strv = is_s(v)
         n = h.llen(r)
+        if i.k != "s" and self.must(ec.st, lst):
+            # known to be a list/tuple: direct indexing (keeps the terms small)
+            ec.may_raise(z3.Not(smt.is_intlike(vi)), "TypeError", line, "list index must be int")
+            ii = smt.num_int(vi) if i.k == "V" else as_int(i)
+            ec.may_raise(z3.Or(ii >= n, ii < -n), "IndexError", line, "list index out of range")
+            return tV(h.lget(r, z3.If(ii < 0, ii + n, ii)))
+        if self.must(ec.st, dct):
+            ec.may_raise(z3.Not(h.dhas(r, vi)), "KeyError", line, "missing key")
+            return tV(h.dget(r, vi))
         if i.k == "s":
             # only a mapping can be indexed by a string
             ec.may_raise(z3.Not(dct), "TypeError", line, "string key on a non-dict")
@@ -1591,6 +1609,13 @@ class Engine:
     def sp_rank(self, e, ec):
         return T("i", rank(toV(self.ev(e.args[0], ec))))
 
+    def sp_num_i(self, e, ec):
+        """integer value of a bool/int value"""
+        x = normT(self.ev(e.args[0], ec))
+        if x.k in ("i", "b"):
+            return T("i", as_int(x))
+        return T("i", smt.num_int(toV(x)))
+
     def sp_num(self, e, ec):
         x = normT(self.ev(e.args[0], ec))
         if x.k in ("i", "b", "r"):
@@ -1798,6 +1823,16 @@ class Engine:
             resv = fresh("int_val", IntS)
             ec.assume(z3.Implies(z3.And(okv, z3.InRe(body, z3.Plus(z3.Range("0", "9")))), resv == z3.If(neg, -val, val)))
             return T("i", resv)
+        if x.k == "r":
+            return T("i", z3.ToInt(x.t))
+        if x.k == "V":
+            v = x.t
+            f = z3.Function("str_to_int", StrS, IntS)
+            okv = fresh("int_ok", BoolS)
+            self.assumptions.add("A-INTSTR: int(str) is an uninterpreted function of the string that may raise ValueError")
+            ec.may_raise(z3.Not(z3.Or(smt.is_num(v), is_s(v))), "TypeError", e.lineno, "int() argument")
+            ec.may_raise(z3.And(is_s(v), z3.Not(okv)), "ValueError", e.lineno, "invalid literal for int()")
+            return T("i", z3.If(smt.is_intlike(v), smt.num_int(v), z3.If(is_r(v), z3.ToInt(V.fv(v)), f(V.sv(v)))))
         raise OutOfSubset("int() of %s" % x.k)
 
     def bi_hasattr(self, e, ec):
